@@ -34,9 +34,13 @@ TECHNIQUE = "Lean 4 proof (case analysis of the guard chain; positivity of guard
 
 def boundary_tle(rng):
     """TLEs near the thresholds of the decision table."""
-    k = rng.randrange(8)
+    k = rng.randrange(10)
     ov = {}
-    if k == 0:      # period near 225 min  -> mean motion near 6.4 rev/day
+    if k >= 8:      # hugging a threshold (220/156/98 km perigee, 225 min period) to within millimetres ... hundreds of metres
+        ov, _ = tlegen.threshold_fields(rng)
+        if rng.random() < 0.5:
+            ov["bstar"] = " 00000-0"
+    elif k == 0:      # period near 225 min  -> mean motion near 6.4 rev/day
         ov["mmotion"] = "%11.8f" % rng.uniform(6.30, 6.50)
         ov["ecc"] = "%07d" % rng.randrange(0, 3000000)
     elif k == 1:    # perigee near 220 km
@@ -208,6 +212,56 @@ def oracle(ctx):
                 elif clearly_fine:
                     ctx.violation("exception_without_decay", c2, repr(ex), "finite answer: a=%.6f e0=%.6f elsq=%.6f rk=%.6f (not decayed)" % (a_, e0_, elsq_, rk_), site="_Keplerians.calculate")
                 ctx.bump("oracle_class", "decay-exception" if decayed else "exception")
+    oracle_sequences(ctx)
+
+
+def _outcome(o, t_min):
+    tt = o.tle.epoch + np.timedelta64(int(round(t_min * 60e6)), "us")
+    with warnings.catch_warnings():
+        warnings.simplefilter("ignore")
+        with np.errstate(all="ignore"):
+            try:
+                pos, vel = o.get_position(tt, normalize=False)
+                return ("answered", [float(x) for x in pos] + [float(x) for x in vel])
+            except Exception as ex:  # noqa
+                return (type(ex).__name__, None)
+
+
+def seq_outcomes(ctx, l1, l2, mins_seq):
+    """The outcome class is a function of the elements and the time: one object asked a SEQUENCE of times (answered,
+    refused, the refused one again, ...) must give, call by call, the outcome of a fresh object asked that time only."""
+    from pyorbital import orbital
+    try:
+        used = orbital.Orbital("x", line1=l1, line2=l2)
+    except Exception:  # noqa
+        return "not-built"
+    bad = 0
+    kinds = []
+    for k, t in enumerate(mins_seq):
+        ctx.count("eval_oracle_sequence")
+        got = _outcome(used, t)
+        want = _outcome(orbital.Orbital("x", line1=l1, line2=l2), t)
+        kinds.append(want[0][0])
+        same = got[0] == want[0] and (got[1] is None or np.allclose(got[1], want[1], rtol=0, atol=1e-9))
+        if not same:
+            ctx.violation("outcome_depends_on_history", {"line1": l1, "line2": l2, "minutes_seq": list(mins_seq), "call": k},
+                          got, "what a fresh object answers for that time: %r" % (want,), site="Orbital.get_position")
+            bad += 1
+            break
+    return "violated" if bad else "".join(kinds)
+
+
+def oracle_sequences(ctx):
+    r = ctx.rng
+    for _ in range(ctx.size(60, 1500)):
+        # strong drag: the orbit decays inside the window, so early times are answered and late ones refused
+        ov = {"bstar": " " + "%05d" % r.randrange(20000, 99999) + "-" + r.choice("01"),
+              "mmotion": "%11.8f" % r.uniform(15.0, 16.2), "ecc": "%07d" % r.randrange(1000, 100000)}
+        _, l1, l2 = tlegen.random_tle(r, "near", overrides=ov)
+        early = [r.uniform(0, 2000) for _ in range(2)]
+        late = [r.uniform(8 * 1440, 40 * 1440) for _ in range(2)]
+        seq = [early[0], late[0], late[0], early[1], late[1], late[0], early[0]]
+        ctx.bump("sequence_pattern", seq_outcomes(ctx, l1, l2, seq))
 
 
 def match_known(entry, v):
@@ -217,6 +271,10 @@ def match_known(entry, v):
 def replay(ctx, case):
     from pyorbital import orbital
     inp = case.get("input", case)
+    if "minutes_seq" in inp:
+        r = seq_outcomes(ctx, inp["line1"], inp["line2"], inp["minutes_seq"])
+        print("sequence:", r)
+        return 1 if r == "violated" else 0
     try:
         o = orbital.Orbital("x", line1=inp["line1"], line2=inp["line2"])
         print("built: period", o._sgdp4.period, "perigee", o._sgdp4.perigee)
